@@ -290,15 +290,17 @@ def g_aton(rng):
     return s + rng.choice(ATON_TRAIL)
 
 HEXD = '0123456789abcdefABCDEF'
+LONG_GROUPS = [False]
 def g_h16(rng, valid=False):
     r = rng.random()
     if valid or r < 0.8:
-        k = rng.choice([1, 1, 2, 3, 4, 4])
+        k = 4 if LONG_GROUPS[0] else rng.choice([1, 1, 2, 3, 4, 4])
         return rng.choice(['0' * k, 'f' * k, 'F' * k, ''.join(rng.choice(HEXD) for _ in range(k))])
     return rng.choice(['', '00000', '12345', 'g', 'G1', '0x1', '-1', '+1', ' 1', '1 ', '١', 'fffff', '1.2', '%', 'ffff0', 'Ａ'])
 
 def g_v6(rng, valid=False):
     """IPv6 text: n groups, '::' placement, embedded IPv4"""
+    LONG_GROUPS[0] = rng.random() < 0.15          # every group with 4 digits: the longest spellings (39 / 45 characters, + scope)
     r = rng.random()
     emb = rng.random() < 0.3
     tail = [g_v4(rng, valid or rng.random() < 0.7)] if emb else []
@@ -488,7 +490,8 @@ BOUNDARY = [
             '::ffff:1.2.3.4', '1:::2', '::1::', '1::2::3', '0:0:0:0:0:0:0:0', '00000::', '::00001', '::1.2.3', '::1.2.3.4.5', '::1.2.3.256',
             'ABCD::abcd', '::\x00', '::1 ', ' ::1', '::1\n', '[::1]', '::a.2.3.4', '::1234.2.3.4', '::255.2.3.4', 'fe80::1%eth0', 'fe80::1%',
             'fe80::1%' + 'a' * 15, 'fe80::1%' + 'a' * 16, 'fe80::1%a%b', 'fe80::1%%', '%eth0', '%', 'fe80::1%\x00', 'fe80::1%\n', 'fe80::1%/64',
-            '::%1', '1:2:3:4:5:6:7:8%1', '::1.2.3.4%1', '١::', '::١', 'ffff:ffff:ffff:ffff:ffff:ffff:ffff:ffff', '1:2:3:4:5:6:7:8\ud800']),
+            '::%1', '1:2:3:4:5:6:7:8%1', 'ffff:ffff:ffff:ffff:ffff:ffff:ffff:ffff%' + 'a' * 15, 'ffff:ffff:ffff:ffff:ffff:ffff:255.255.255.255%' + 'b' * 15,
+            'ffff:ffff:ffff:ffff:ffff:ffff:255.255.255.255', '0000:0000:0000:0000:0000:0000:0000:0000%x', 'ABCD:ABCD:ABCD:ABCD:ABCD:ABCD:192.168.100.200%eth0', '::1.2.3.4%1', '١::', '::١', 'ffff:ffff:ffff:ffff:ffff:ffff:ffff:ffff', '1:2:3:4:5:6:7:8\ud800']),
     ('cidr', ['10.0.0.0/8', '10.0.0.0/0', '10.0.0.0/32', '10.0.0.0/33', '10.0.0.0/-1', '10.0.0.0', '10.0.0.0/', '10.0.0.0//', '10.0.0.0//8',
               '10.0.0.0/8/8', '10.0.0.0/8/', '/8', '/', '', '::/0', '::/128', '::/129', '::/-1', '::', '::/', '::/64/64', '::1/128', '1::/ffff::',
               '10.0.0.0/255.0.0.0', '10.0.0.0/0.0.0.255', '10.0.0.0/255.0.255.0', '10.0.0.0/ 8', '10.0.0.0/08', '10.0.0.0/+8', '10.0.0.0/8 ',
